@@ -564,3 +564,59 @@ func (g *Grammar) CapturesAtStart(root string) []string {
 	sort.Strings(out)
 	return out
 }
+
+// NestedCaptures lists the rules that contain a capture <…> whose body can itself produce a capture node (directly or
+// through rule references outside predicates). The tree of such a capture has PegText nodes below a PegText node.
+func (g *Grammar) NestedCaptures() []string {
+	// hasCap[r]: rule r can produce a capture node
+	hasCap := map[string]bool{}
+	var exprHas func(e *Expr) bool
+	exprHas = func(e *Expr) bool {
+		switch e.Kind {
+		case Capture:
+			return true
+		case Not, And:
+			return false
+		case Ref:
+			return hasCap[e.Name]
+		}
+		for _, x := range e.Sub {
+			if exprHas(x) {
+				return true
+			}
+		}
+		return false
+	}
+	for changed := true; changed; {
+		changed = false
+		for _, r := range g.Order {
+			if !hasCap[r] && exprHas(g.Rules[r]) {
+				hasCap[r] = true
+				changed = true
+			}
+		}
+	}
+	var out []string
+	var find func(rule string, e *Expr) bool
+	find = func(rule string, e *Expr) bool {
+		if e.Kind == Not || e.Kind == And {
+			return false
+		}
+		if e.Kind == Capture && exprHas(e.Sub[0]) {
+			return true
+		}
+		for _, x := range e.Sub {
+			if find(rule, x) {
+				return true
+			}
+		}
+		return false
+	}
+	for _, r := range g.Order {
+		if find(r, g.Rules[r]) {
+			out = append(out, r)
+		}
+	}
+	sort.Strings(out)
+	return out
+}
